@@ -400,7 +400,12 @@ pub fn execute_ct(exe: &Path, sc: &DScenario, dir: &Path) -> Vec<DFinding> {
     std::fs::write(&gy, sc.gram.render()).expect("write g.y");
     std::fs::write(&gl, sc.gram.render_lexer()).expect("write g.l");
     let mut first: Option<(u64, Vec<(String, Option<Vec<u8>>)>, bool)> = None;
-    for &seed in &sc.seeds {
+    for (si, &seed) in sc.seeds.iter().enumerate() {
+        // same bytes, another modification time: every build process sees freshly "checked out"
+        // sources (simulated stamps, one hour apart)
+        for f in [&gy, &gl] {
+            let _ = filetime::set_file_mtime(f, filetime::FileTime::from_unix_time(1_700_000_000 + 3600 * si as i64, 123_456_789 * (si as u32 % 8)));
+        }
         let out = dir.join(format!("out-{seed}"));
         let _ = std::fs::create_dir_all(&out);
         let spec = BuildSpec {
